@@ -5,7 +5,8 @@ Set Implicit Arguments.
 Inductive fsop :=
 | FCopy (u : uval) | FExtend (us : list uval) | FFromIter (us : list uval) | FClear | FReserve (n : N)
 | FClone | FObserve | FSerde
-| FWithCap (n : N) | FMergeCap (k : nat) | FResRegs (us : list uval) | FResItems (us : list uval).
+| FWithCap (n : N) | FMergeCap (k : nat) | FResRegs (us : list uval) | FResItems (us : list uval)
+| FCloneFrom (us : list uval).
 
 Record FSM := { fm : MRegion; fs_ic : IC (idx (mr fm)); fs_ics : ICSer fs_ic }.
 
@@ -73,6 +74,13 @@ Section FSMach.
         end
     (* FlatStack::reserve_items: invisible *)
     | FResItems us :: ops' =>
+        match omap_vals us with
+        | None => [UL [UN 99]]
+        | Some _ => UNone :: fs_run x ops'
+        end
+    (* clone_from: a scratch destination holding [us] is overwritten by the stack and replaces it --
+       the result is the source, whatever the destination held (CloneFromOK) *)
+    | FCloneFrom us :: ops' =>
         match omap_vals us with
         | None => [UL [UN 99]]
         | Some _ => UNone :: fs_run x ops'
